@@ -163,6 +163,20 @@ func niScenario(family string, depth int, seed int64, jsonMode bool) (pairs int,
 			if oa != ob && len(diffs) < 5 {
 				diffs = append(diffs, niDiff{p.Clause, sc.Cfg, sc.Seed, append([]sut.Event(nil), prefix...), p.A, p.B, oa, ob})
 			}
+			// the same pair while the mail system is down: its failures are not the client's business either
+			w.In.Store.Outage = "SendMail RenderMail"
+			_, _, ra = w.Step(p.A)
+			oa = observation(ra)
+			w.Restore(snap)
+			_, _, rb = w.Step(p.B)
+			ob = observation(rb)
+			w.Restore(snap)
+			w.In.Store.Outage = ""
+			pairs++
+			byClause[p.Clause+"@mail-outage"]++
+			if oa != ob && len(diffs) < 5 {
+				diffs = append(diffs, niDiff{p.Clause + "@mail-outage", sc.Cfg, sc.Seed, append([]sut.Event(nil), prefix...), p.A, p.B, oa, ob})
+			}
 		}
 	}
 	return
@@ -245,6 +259,9 @@ func niReplay(path string) {
 		w.Step(e)
 	}
 	snap := w.Snapshot()
+	if strings.HasSuffix(d.Clause, "@mail-outage") {
+		w.In.Store.Outage = "SendMail RenderMail"
+	}
 	_, _, ra := w.Step(d.A)
 	oa := observation(ra)
 	w.Restore(snap)
